@@ -292,6 +292,37 @@ pub fn run(ctx: &mut Ctx) {
             }
         }
     }
+    // ---- the other bytes that mean something in a URI (`?`, `#`, `@`, `[`, `]`, `;`, `=`, `&`, `\\`, SP is not
+    // possible): every string of length <= 6 over {a / ? # : . @} behind each scheme-like prefix. The
+    // definition knows no delimiter but the first '/' after the authority.
+    const DELIMS: [&str; 7] = ["a", "/", "?", "#", ":", ".", "@"];
+    let dl = if quick { 5 } else { 7 };
+    for pre in ["http://", "http:/", "", "/", "http://h", "//"] {
+        for len in 0..=dl {
+            for n in 0..7u64.pow(len as u32) {
+                idx += 1;
+                if !ctx.mine(idx) {
+                    continue;
+                }
+                let mut x = n;
+                let mut s = String::from(pre);
+                for _ in 0..len {
+                    s.push_str(DELIMS[(x % 7) as usize]);
+                    x /= 7;
+                }
+                if s.is_empty() {
+                    continue;
+                }
+                ctx.rep.count("uris_with_delimiters");
+                if check_uri(ctx, &s) {
+                    bad += 1;
+                    if bad > 20 {
+                        return;
+                    }
+                }
+            }
+        }
+    }
     // raw bytes: every sample URI with an invalid-UTF-8 byte (or a truncated multi-byte sequence) at every position
     if ctx.shard == 1 % ctx.nshards {
         for base in ["/a/b", "http://h/a", "http://ab/c", "http://h:80/x/y", "http://", "http://a", "a/b", "http:///p", "/\u{e9}/x"] {
